@@ -95,6 +95,19 @@ class Spec:
                 if s[0] == "assign":
                     fr["line"] = ln
                     fr["locs"].append(self.expr(s[1], fr))
+                elif s[0] == "fin":
+                    pending = None
+                    try:
+                        fr["line"] = ln + 1
+                        v = self.expr(s[1], fr)
+                    except Raised as r:
+                        pending = r
+                    fr["line"] = ln + 3
+                    self.expr(s[2], fr)           # a failure of the clean-up replaces the pending one
+                    if pending is not None:
+                        fr["line"] = ln + 1       # the frame's traceback entry stays at the protected expression
+                        raise pending
+                    fr["locs"].append(v)
                 else:
                     try:
                         fr["line"] = ln + 1
